@@ -541,6 +541,11 @@ func (x *MessageSubsidy) Check() lib.ErrorI {
 	if err := checkAddress(x.Address); err != nil {
 		return err
 	}
+	// the subsidy is paid into the reward pool with the id of the chain: only a valid chain id may be
+	// named, otherwise the id could be that of another chain's escrow / holding / liquidity pool
+	if err := checkChainId(x.ChainId); err != nil {
+		return err
+	}
 	if len(x.Opcode) > 100 {
 		return ErrInvalidOpcode()
 	}
